@@ -230,8 +230,12 @@ func (t *TopK) WriteTo(stream io.Writer) (int64, error) {
 	if err != nil {
 		return 0, err
 	}
-	numBytesHeap := int64(0)
-	for i := uint(0); i < t.k; i++ {
+	err = binary.Write(stream, binary.BigEndian, uint64(len(t.heap)))
+	if err != nil {
+		return 0, err
+	}
+	numBytesHeap := int64(binary.Size(uint64(0)))
+	for i := range t.heap {
 		element := t.heap[i]
 		err := binary.Write(stream, binary.BigEndian, uint64(len(element.value)))
 		if err != nil {
@@ -273,9 +277,14 @@ func (t *TopK) ReadFrom(stream io.Reader) (int64, error) {
 	if err != nil {
 		return 0, err
 	}
-	numBytesHeap := int64(0)
+	var heapLen uint64
+	err = binary.Read(stream, binary.BigEndian, &heapLen)
+	if err != nil {
+		return 0, err
+	}
+	numBytesHeap := int64(binary.Size(uint64(0)))
 	heap := &minHeap{}
-	for i := uint64(0); i < k; i++ {
+	for i := uint64(0); i < heapLen; i++ {
 		var strLen, frequency uint64
 		err := binary.Read(stream, binary.BigEndian, &strLen)
 		if err != nil {
@@ -290,6 +299,7 @@ func (t *TopK) ReadFrom(stream io.Reader) (int64, error) {
 		if err != nil {
 			return 0, err
 		}
+		numBytesHeap += int64(len(b) + 2*binary.Size(uint64(0)))
 		*heap = append(*heap, heapElement{value: string(b), frequency: frequency})
 	}
 	t.k = uint(k)
